@@ -163,7 +163,7 @@ func run(s Script, v *vt.V) {
 				u := built.Servers[len(built.Servers)-1].URL + "/v2/" + repo + "/blobs/uploads/?digest=" + string(decl.Digest)
 				req, _ := http.NewRequest("POST", u, bytes.NewReader(data))
 				req.Header.Set("Content-Type", "application/octet-stream")
-				resp, err := http.DefaultClient.Do(req)
+				resp, err := built.Servers[len(built.Servers)-1].Client().Do(req)
 				if err != nil {
 					perr = err
 				} else {
@@ -225,7 +225,7 @@ func run(s Script, v *vt.V) {
 				u := built.Servers[len(built.Servers)-1].URL + "/v2/" + repo + "/manifests/" + string(decl.Digest)
 				req, _ := http.NewRequest("PUT", u, bytes.NewReader(data))
 				req.Header.Set("Content-Type", mtOpaque)
-				resp, err := http.DefaultClient.Do(req)
+				resp, err := built.Servers[len(built.Servers)-1].Client().Do(req)
 				if err != nil {
 					perr = err
 				} else {
